@@ -25,58 +25,58 @@ type Obligation struct {
 	Goal    *Term
 	NAssume int
 	Pos     token.Position
-	Cand    int // unused
+	Cand    int    // unused
 	CandKey string // candidate invariant key (Houdini) or ""
 	Extra   []*Term
 	NIMap   map[*Term]*Term // non-interference: substitution giving the second run's terms
-	Expr    string // Go text of the contract clause, for replay
+	Expr    string          // Go text of the contract clause, for replay
 }
 
 type Encoder struct {
-	w           *World
-	c           *Ctx
-	sorts       map[string]*Sort
-	assumptions []*Term
-	obls        []*Obligation
-	cur         *State
-	entry       *State
-	guard       *Term
-	A0          *Term
-	allocN      int
-	top         *ssa.Function
-	contract    *Contract
-	warnings    map[string]bool
-	trusted     map[string]bool
-	inlined     map[string]bool
-	unmodelled  map[string]bool
-	pure        int
-	inlineStack []*ssa.Function
-	idCount     map[string]int
-	inputs      []inputVal // for models
-	candDropped map[string]bool
-	epochN      int
-	strict      bool // over-read obligations (bound slices by len, not cap)
-	globals     map[*ssa.Global]*Term
-	loopCount   int
-	ufAxiomSeen map[*Term]bool
-	retVals     *SVal
-	topFrame    *frame
-	closedWorld map[string]bool
-	symMemo     map[*Term]map[*Term]bool
-	niTerms     []*Term
-	loopRefSyms []*Term
-	tiFacts     map[*Term]bool
-	loopWindows []*loopWindow
-	splits      []*Term
-	lastSendCtx *SVal
-	cryptOut    *Term
-	cryptOff    *Term
-	specPure    int
-	cbc         map[*Term]*cbcGhost
-	randDraws   int
-	initMode    bool
-	initAllocN  int
-	seeded      bool
+	w             *World
+	c             *Ctx
+	sorts         map[string]*Sort
+	assumptions   []*Term
+	obls          []*Obligation
+	cur           *State
+	entry         *State
+	guard         *Term
+	A0            *Term
+	allocN        int
+	top           *ssa.Function
+	contract      *Contract
+	warnings      map[string]bool
+	trusted       map[string]bool
+	inlined       map[string]bool
+	unmodelled    map[string]bool
+	pure          int
+	inlineStack   []*ssa.Function
+	idCount       map[string]int
+	inputs        []inputVal // for models
+	candDropped   map[string]bool
+	epochN        int
+	strict        bool // over-read obligations (bound slices by len, not cap)
+	globals       map[*ssa.Global]*Term
+	loopCount     int
+	ufAxiomSeen   map[*Term]bool
+	retVals       *SVal
+	topFrame      *frame
+	closedWorld   map[string]bool
+	symMemo       map[*Term]map[*Term]bool
+	niTerms       []*Term
+	loopRefSyms   []*Term
+	tiFacts       map[*Term]bool
+	loopWindows   []*loopWindow
+	splits        []*Term
+	lastSendCtx   *SVal
+	cryptOut      *Term
+	cryptOff      *Term
+	specPure      int
+	cbc           map[*Term]*cbcGhost
+	randDraws     int
+	initMode      bool
+	initAllocN    int
+	seeded        bool
 	topAssignLocs []assignLoc
 	topAssignsSet bool
 }
@@ -211,18 +211,18 @@ type frame struct {
 }
 
 type loopInfo struct {
-	header  *ssa.BasicBlock
-	body    map[*ssa.BasicBlock]bool
-	phis    []*ssa.Phi
-	phiVals map[*ssa.Phi]*SVal // havocked values at header
-	stH     *State
-	reachH  *Term
-	invs    []*invariant
-	variant *Term
-	varDesc string
+	header      *ssa.BasicBlock
+	body        map[*ssa.BasicBlock]bool
+	phis        []*ssa.Phi
+	phiVals     map[*ssa.Phi]*SVal // havocked values at header
+	stH         *State
+	reachH      *Term
+	invs        []*invariant
+	variant     *Term
+	varDesc     string
 	autoVariant *Term
 	autoVarDesc string
-	idx     int
+	idx         int
 }
 
 type invariant struct {
@@ -835,7 +835,7 @@ func (e *Encoder) makeInterface(v *SVal, from types.Type, to types.Type) *SVal {
 		r.T = v.T
 	default:
 		ref := e.newAlloc()
-		a := e.cellAddr(ref, from)
+		a := e.boxAddr(ref, from)
 		e.store(e.cur, a, v)
 		r.T = ref
 	}
@@ -1267,7 +1267,7 @@ func (e *Encoder) typeAssert(fr *frame, x *ssa.TypeAssert) {
 	if kindOf(at) == KPtr {
 		res = &SVal{K: KPtr, Typ: at, T: v.T}
 	} else {
-		res = e.load(e.cur, e.cellAddr(v.T, at))
+		res = e.load(e.cur, e.boxAddr(v.T, at))
 	}
 	if x.CommaOk {
 		z := e.zero(at)
